@@ -255,6 +255,47 @@ def strat_long(draw, tier):
     return case
 
 
+@st.composite
+def strat_reader(draw, tier):
+    n = draw(st.integers(8, 200))
+    start = draw(st.one_of(st.just(0), st.integers(1, n - 4)))
+    nsamps = None if draw(st.booleans()) else draw(st.integers(3, n - start))
+    eff = n - start if nsamps is None else nsamps
+    return {"family": draw(st.sampled_from(["b8", "b4", "offset", "bandpass", "step", "tiny", "grid", "outlier"])), "n": n, "nch": draw(st.integers(1, 6)),
+            "mode": draw(st.sampled_from(["basic", "full"])), "seed": draw(st.integers(0, 2**31 - 1)), "start": start, "nsamps": nsamps,
+            "gulp": draw(st.one_of(st.integers(1, eff + 2), st.integers(1, max(1, eff // 3)))), "nfiles": draw(st.sampled_from([1, 1, 2]))}
+
+
+def check_reader(case, ctx):
+    """The accumulator as the file readers feed it: Filterbank.compute_stats / compute_stats_basic over a sub-range of a
+    file, gulp by gulp, must report the statistics of exactly that sub-range - extrema included, whatever the levels."""
+    from sigpyproc.readers import FilReader
+
+    from vlib import sigfile
+
+    x = make(case["family"], case["n"], case["nch"], case["seed"])
+    nbits = 8 if x.dtype == np.uint8 else 32
+    if nbits == 8 and case["nch"] % 1:
+        return Info(False, ("skipped",))
+    d = ctx.fresh_dir()
+    n = case["n"]
+    split = [n] if case["nfiles"] == 1 or n < 4 else [n // 3, n - n // 3]
+    paths, _, _ = sigfile.write_stream(d, x, nbits, split, fch1=1400.0, foff=-1.0)
+    start, nsamps = case["start"], case["nsamps"]
+    eff = n - start if nsamps is None else nsamps
+    X = x[start : start + eff]
+    full = case["mode"] == "full"
+    ctxt = f"family={case['family']} n={n} nch={case['nch']} nbits={nbits} files={len(split)} start={start} nsamps={nsamps} gulp={case['gulp']} mode={case['mode']} seed={case['seed']}"
+    rd = FilReader(paths)
+    try:
+        (rd.compute_stats if full else rd.compute_stats_basic)(gulp=case["gulp"], start=start, nsamps=nsamps, quiet=True, description="v")
+    except Exception as exc:  # noqa: BLE001
+        raise Violation(f"reader:raised:{type(exc).__name__}", f"{ctxt}: {exc!r}") from exc
+    nonconst = compare(rd.chan_stats, X, "reader", ctxt, full)
+    labels = [case["family"], case["mode"]] + (["start>0"] if start > 0 else []) + (["multi_block"] if case["gulp"] < eff else [])
+    return Info(nonconst and case["gulp"] < eff, tuple(labels))
+
+
 def subchecks(tier):
     return [
         SubCheck("compositions", check, enumerate=enum_compositions, exhaustive=True,
@@ -262,6 +303,8 @@ def subchecks(tier):
         SubCheck("merges", check, enumerate=enum_merges, exhaustive=True, shards={"quick": 2, "thorough": 4}),
         SubCheck("long_streams", check, strategy=lambda t: strat_long(t),
                  examples={"quick": 60, "thorough": 2000}, shards={"quick": 4, "thorough": 16}),
+        SubCheck("reader", check_reader, strategy=lambda t: strat_reader(t),
+                 examples={"quick": 600, "thorough": 30000}, shards={"quick": 3, "thorough": 8}),
         SubCheck("random", check, strategy=lambda t: strat_random(t),
                  examples={"quick": 10000, "thorough": 400000}, shards={"quick": 6, "thorough": 16}),
     ]
